@@ -391,6 +391,16 @@ func fidelityCLI(p *Program, job *Job, st *Stats) []string {
 		mapP := func(s string) string { return strings.ReplaceAll(s, SimRoot, dir) }
 		for _, nd := range spec.Nodes {
 			rp := mapP(nd.Path)
+			if len(rp) > 3000 {
+				// longer than PATH_MAX allows in one piece: build it component by component
+				switch nd.Kind {
+				case "dir":
+					deepCreate(rp, nil, true)
+				case "file":
+					deepCreate(rp, []byte(mapP(string(nd.Data))), false)
+				}
+				continue
+			}
 			switch nd.Kind {
 			case "dir":
 				os.MkdirAll(rp, 0o755)
@@ -445,6 +455,9 @@ func fidelityCLI(p *Program, job *Job, st *Stats) []string {
 			})
 			var simFiles []string
 			for _, s := range sim.Final {
+				if len(s.Path) > 3000 {
+					continue // the real tree cannot be walked down there with absolute paths either
+				}
 				if s.Kind == world.KFile {
 					simFiles = append(simFiles, s.Path+"\x00"+string(s.Data))
 				}
@@ -473,4 +486,36 @@ func fidelityCLI(p *Program, job *Job, st *Stats) []string {
 		}
 	}
 	return fails
+}
+
+// deepCreate creates the directory (or the file with the given content) at an
+// absolute path that may be longer than PATH_MAX, descending one component at
+// a time with openat/mkdirat.
+func deepCreate(p string, data []byte, dir bool) error {
+	comps := strings.Split(strings.Trim(p, "/"), "/")
+	fd, err := syscall.Open("/", syscall.O_RDONLY|syscall.O_DIRECTORY, 0)
+	if err != nil {
+		return err
+	}
+	defer func() { syscall.Close(fd) }()
+	for i, c := range comps {
+		last := i == len(comps)-1
+		if last && !dir {
+			ffd, err := syscall.Openat(fd, c, syscall.O_WRONLY|syscall.O_CREAT|syscall.O_TRUNC, 0o644)
+			if err != nil {
+				return err
+			}
+			_, err = syscall.Write(ffd, data)
+			syscall.Close(ffd)
+			return err
+		}
+		syscall.Mkdirat(fd, c, 0o755)
+		nfd, err := syscall.Openat(fd, c, syscall.O_RDONLY|syscall.O_DIRECTORY, 0)
+		if err != nil {
+			return err
+		}
+		syscall.Close(fd)
+		fd = nfd
+	}
+	return nil
 }
